@@ -14,7 +14,7 @@ from .. import gen
 
 from menpo.image import BooleanImage
 from menpo.shape import PointCloud, TriMesh
-from menpo.transform import (AlignmentSimilarity, ThinPlateSplines, TransformChain,
+from menpo.transform import (Affine, AlignmentSimilarity, Rotation, ThinPlateSplines, TransformChain,
                              Translation, UniformScale)
 from menpo.transform.base import Transform
 from menpo.transform.piecewiseaffine import PiecewiseAffine, TriangleContainmentError
@@ -67,7 +67,7 @@ class ApplyHistory(Machine):
                        "batch_middle_fails", "batch_gt_n", "batch_not_dividing", "exception_then_success",
                        "mask_checked", "apply_shape", "constrain_batched", "set_target_between_applies",
                        "out_of_domain_mix", "apply_on_copy", "integer_dtype_buffer", "non_contiguous_view_input", "pseudoinverse_of_used_transform",
-                       "parameters_updated_in_place_between_applies", "earlier_result_still_valid", "caller_edited_an_earlier_result_in_place", "current_target_edited_in_place_and_set_again",
+                       "parameters_updated_in_place_between_applies", "earlier_result_still_valid", "caller_edited_an_earlier_result_in_place", "current_target_edited_in_place_and_set_again", "derived_non_alignment_changed_in_place", "identity_valued_transform",
                        "pseudoinverse_vector_asked_between_applies", "pseudoinverse_vector_of_singular_parameters_raised",
                        "composition_result_discarded_between_applies")
 
@@ -154,6 +154,11 @@ class ApplyHistory(Machine):
             return WithDims([1, 0] if seed & 1 else [0])
         if kind.startswith("Alignment"):
             return gen.make_alignment(kind, S, PointCloud(self._target(tseed)), {})
+        if seed % 8 == 0 and kind in ("Translation", "UniformScale", "Rotation", "Affine"):
+            # a transform that happens to do nothing is a transform like any other: its results are new arrays
+            self.ctx.probe("identity_valued_transform")
+            return {"Translation": lambda: Translation(np.zeros(2)), "UniformScale": lambda: UniformScale(1.0, 2),
+                    "Rotation": lambda: Rotation(np.eye(2)), "Affine": lambda: Affine(np.eye(3))}[kind]()
         return gen.homog_transform(kind, seed, 2)
 
     def _inside(self, g, n):
@@ -322,6 +327,15 @@ class ApplyHistory(Machine):
                 c = e["t"].copy()
                 if hasattr(c, "compose_before_inplace") and isinstance(c, TransformChain):
                     c.compose_before_inplace(other)
+            if op["seed"] & 128 and hasattr(e["t"], "as_non_alignment"):
+                # the plain transform derived from an alignment is the caller's to change
+                n_ = e["t"].as_non_alignment()
+                v_ = np.array(n_.as_vector(), dtype=float)
+                if op["seed"] & 256:
+                    n_.from_vector_inplace(v_ * 1.3 + 0.1)
+                else:
+                    n_.compose_before_inplace(other)
+                self.ctx.probe("derived_non_alignment_changed_in_place")
             self.ctx.probe("composition_result_discarded_between_applies")
         except Exception:
             pass
@@ -499,6 +513,10 @@ class ApplyHistory(Machine):
             ctx.require(got is None or not np.shares_memory(got, held[0]), "apply_pure", "two_results_share_one_buffer_" + kind,
                         lambda: "%s.apply() returned memory that an earlier call had already returned" % kind)
             ctx.probe("earlier_result_still_valid")
+        if got is not None:
+            # a result that IS (a view of) the caller's input would change whenever the caller goes on using either
+            ctx.require(not (np.shares_memory(got, a) or np.shares_memory(got, arg)), "apply_pure", "result_shares_memory_with_input_" + kind,
+                        lambda: "%s.apply() returned memory of the array it was given" % kind)
         e["held"] = None if (got is None or np.shares_memory(got, a) or np.shares_memory(got, arg)) else [got, got.copy()]
         ctx.require(np.array_equal(arg, snapshot), "input_intact", "apply_modified_input_" + kind,
                     lambda: "%s.apply(batch=%r) modified the array it was given" % (kind, batch))
